@@ -145,6 +145,11 @@ class _FailOracle:
                         out.append(Violation("not-raised", site, "", dict(element=x, log=c04._short(self.log))))
                     elif direct and raised[x][4] != "Injected":
                         out.append(Violation("wrong-exception", site, raised[x][4], dict(element=x)))
+            zeroed = set(e[1] for e in self.log if e[0] == "rc0")
+            for payload, label in failed:
+                for x in flat(payload):
+                    if x in zeroed:
+                        out.append(Violation("callback-on-failed", site, "", dict(element=x, log=c04._short(self.log))))
             # elements that did not fail are delivered and finished as usual
             bad = set(x for payload, _ in failed for x in flat(payload))
             want = [x for x in self.emitted() if x not in bad]
